@@ -20,8 +20,8 @@ EVERY answer on the way with the same exact oracle and the same model:
     must still be what they were (also after the caller overwrites its own arrays);
     an index that decreases is mixed in (the error must not outlive the call).
   * SeriesLife: 2..4 calls of monthly2daily; the monthly Series has a DatetimeIndex
-    of unit s / ms / us / ns, with or without freq, naive / UTC / a zone at a fixed
-    offset, named or not, float64 or int64 values, held plainly, as a
+    of unit s / ms / us / ns, with or without freq, naive / UTC / zones with and
+    without daylight saving, named or not, float64 or int64 values, held plainly, as a
     DataFrame column, as a slice of a longer series, on a read-only or a strided
     buffer.  Successive calls differ in one respect (other interpolation, other year
     with the same month and length - leap / common / century -, next month, other
@@ -705,10 +705,9 @@ class ArrLife:
 
 # monthly series
 
-# zones WITH daylight saving ("Australia/Sydney", "Europe/Paris") are not drawn: the cubic branch of the
-# pinned code raises for a tz-aware series spanning a clock-back (reported as a defect, notes/C08.md);
-# add them here once it is repaired
-M2D_TZ = [None, None, None, "UTC", "Etc/GMT-10", "Asia/Kolkata"]
+# zones with daylight saving included: the cubic branch of the pinned code raised for a tz-aware series
+# spanning a clock-back (defect found by this class, repaired in 2f7c031; known_findings.d/C08.json)
+M2D_TZ = [None, None, None, "UTC", "Australia/Sydney", "Europe/Paris", "Asia/Kolkata"]
 M2D_HOLD = ["plain", "plain", "int64", "frame-column", "slice", "readonly", "strided"]
 YEAR_KINDS = [1999, 2000, 2001, 2004, 1900, 2100, 1800, 2200, 1700, 1896, 2096]
 
@@ -747,6 +746,18 @@ def build_monthly(st, salt=0):
         base[1::2] = vals
         return pd.Series(base[1::2], index=idx, name=name, copy=False), base
     return pd.Series(np.array(vals, dtype=np.float64), index=idx, name=name), None
+
+
+def pinned_sequences():
+    """sequences replayed first on every run (repaired defects found by the sequence classes)"""
+    out = []
+    for tz, y, m in (("Australia/Sydney", 2000, 2), ("Europe/Paris", 2001, 10), ("Australia/Sydney", 1999, 7)):
+        for interp in ("cubic", "flat"):
+            n = 2 if y != 1999 else 14
+            out.append({"call": "series", "steps": [
+                {"interp": interp, "year": y, "month": m, "vals": [29.0, 31.0, 0.0, 7.5][:2] * (n // 2),
+                 "unit": "us", "freq": True, "tz": tz, "name": False, "hold": "plain", "obj": "new"}]})
+    return out
 
 
 def gen_m2d_session(rng, maxmonths):
@@ -878,7 +889,11 @@ def run_arrays(case, add, session_fail, count):
             fs = oracle_aggregate(one, out) if fn == "aggregate" else oracle_flathomogen(one, out)
         for key, what in fs:
             held = ""
-            if life.I.get() != [int(v) for v in st["idx"]] or not same_floats(life.X.get(), fl(st["xs"])):
+            try:
+                intact = life.I.get() == [int(v) for v in st["idx"]] and same_floats(life.X.get(), fl(st["xs"]))
+            except Exception:
+                intact = False
+            if not intact:
                 held = "; the caller's objects no longer hold what the caller wrote"
             session_fail(replay, mine, key, f"{where}: {what}{' [' + exc + ']' if exc else ''}{held}")
         if k == len(case["steps"]) - 1:
@@ -1012,7 +1027,7 @@ def run(ctx):
                 "int32 / int64 / 0-d array, the objects passed again untouched / rewritten in place / rebuilt, "
                 "earlier results held and re-read after every call and after the caller overwrites its arrays; "
                 "60 (thorough 500) sequences of 2..4 calls of monthly2daily on Series with index unit s/ms/us/ns, "
-                "with / without freq, naive / UTC / Etc/GMT-10 / Asia/Kolkata, float64 / int64 values, plain / "
+                "with / without freq, naive / UTC / Australia/Sydney / Europe/Paris / Asia/Kolkata, float64 / int64 values, plain / "
                 "DataFrame column / slice of a longer series / read-only / strided buffer, successive calls "
                 "differing in interpolation, year (same month and length; leap, common, century), month or values, "
                 "the Series passed again / rewritten in place / rebuilt; non-trivial = distinct case signature")
@@ -1092,7 +1107,7 @@ def run(ctx):
         r = ctx.replay.get("replay", ctx.replay)
         if isinstance(r, dict) and "call" in r:
             extra.append(clean_case(r))
-    for case in extra + [clean_case(c) for c in cm.load_corpus(PID)] + fixed_replays():
+    for case in extra + [clean_case(c) for c in cm.load_corpus(PID)] + fixed_replays() + pinned_sequences():
         if case.get("call") in ("aggregate", "flathomogen", "monthly2daily", "arrays", "series"):
             do_case(case)
 
